@@ -5,6 +5,7 @@ package scen
 import (
 	"errors"
 	"fmt"
+	"strings"
 
 	"github.com/vapourismo/knx-go/knx"
 	"github.com/vapourismo/knx-go/knx/knxnet"
@@ -559,4 +560,101 @@ func c14LostDuringWriteOracle(tr *mc.Trace) []h.Violation {
 
 func init() {
 	register("both", &h.Scenario{Name: "C14-lost-indication-during-a-socket-write", Prop: "C14", P: 1, F: 0, D: 1, Run: c14LostDuringWrite(), Check: c14LostDuringWriteOracle})
+}
+
+// Router clients with different configurations one after another in one process (seeded change
+// C14-l: checkRouterConfig overlaid the caller's settings onto the package's default *in place*, so
+// a router created with RetainCount 0 = default inherited the count of the router before it). Three
+// routers in succession, every ordered triple of retain counts {0, 1, 3, 40, 64} and two pauses;
+// each sends 70 messages and is then asked for everything it retained: exactly the last
+// min(70, configured) must come back (0 = the documented default, 32), and the package's exported
+// default configuration must read the same before and after.
+type RouterCfg struct {
+	N      int
+	Retain int
+}
+
+func (r RouterCfg) String() string { return fmt.Sprintf("ROUTER %d retain=%d", r.N, r.Retain) }
+
+func c14ConfigSequence() func() {
+	return func() {
+		before := knx.DefaultRouterConfig
+		retains := []uint{0, 1, 3, 40, 64}
+		for n := 0; n < 3; n++ {
+			rc := retains[mc.Choose(len(retains), mc.Free)]
+			pause := []mc.Duration{0, 2 * ms}[mc.Choose(2, mc.Free)]
+			sock := fakesock.New("udp")
+			r, _ := knx.NewRouterOnSocket(sock, knx.RouterConfig{RetainCount: rc, PostSendPauseDuration: pause})
+			mc.Log(RouterCfg{n, int(rc)})
+			for i := 0; i < 70; i++ {
+				r.Send(Msg(n*1000 + i))
+			}
+			mc.Log(Op{"lost", 65535, true})
+			deliverLost(sock, 65535)
+			mc.Sleep(2000 * ms)
+			mc.Log(Op{"end", n, false})
+			r.Close()
+		}
+		if after := knx.DefaultRouterConfig; after != before {
+			mc.Log(Note(fmt.Sprintf("default-config-changed: DefaultRouterConfig was %+v before the routers were created and is %+v afterwards", before, after)))
+		}
+	}
+}
+
+func c14ConfigSequenceOracle(tr *mc.Trace) []h.Violation {
+	vs := generic(tr, "C14", false)
+	cur, retain := -1, 0
+	probing := false
+	var resent []int
+	var cfgs []int
+	judge := func() {
+		want := retain
+		if want == 0 {
+			want = 32
+		}
+		if want > 70 {
+			want = 70
+		}
+		var exp []int
+		for i := 70 - want; i < 70; i++ {
+			exp = append(exp, cur*1000+i)
+		}
+		if fmt.Sprint(resent) != fmt.Sprint(exp) {
+			vs = append(vs, h.Violation{Class: "C14:resend-differs:routers-in-succession", Msg: fmt.Sprintf("routers with RetainCount %v were created one after another; router %d (RetainCount %d) sent 70 messages and was told 65535 were lost: it retransmitted %d messages %v, expected the last %d", cfgs, cur, retain, len(resent), abbreviate(resent), want)})
+		}
+	}
+	for _, e := range tr.Log {
+		switch x := e.V.(type) {
+		case RouterCfg:
+			cur, retain, probing, resent = x.N, x.Retain, false, nil
+			cfgs = append(cfgs, x.Retain)
+		case Op:
+			if x.Kind == "lost" {
+				probing = true
+			} else if x.Kind == "end" {
+				judge()
+				probing = false
+			}
+		case fakesock.Sent:
+			if ind, ok := x.Svc.(*knxnet.RoutingInd); ok && x.Err == nil && probing {
+				resent = append(resent, MsgID(ind.Payload))
+			}
+		case Note:
+			if strings.HasPrefix(string(x), "default-config-changed") {
+				vs = append(vs, h.Violation{Class: "C14:default-configuration-modified", Msg: string(x)})
+			}
+		}
+	}
+	return vs
+}
+
+func abbreviate(xs []int) string {
+	if len(xs) <= 8 {
+		return fmt.Sprint(xs)
+	}
+	return fmt.Sprintf("[%d %d %d ... %d %d]", xs[0], xs[1], xs[2], xs[len(xs)-2], xs[len(xs)-1])
+}
+
+func init() {
+	register("both", &h.Scenario{Name: "C14-three-routers-in-succession-every-retain-triple", Prop: "C14", P: 0, F: 0, D: -1, Run: c14ConfigSequence(), Check: c14ConfigSequenceOracle})
 }
